@@ -1122,6 +1122,8 @@ class StridedInterval:
 
     @property
     def n_values(self):
+        if self.stride == 0:
+            return 1
         return (StridedInterval._wrapped_cardinality(self.lower_bound, self.upper_bound, self.bits) // self.stride) + 1
 
     #
